@@ -401,4 +401,110 @@ def runSeq (cache : Option Sess) : List Conn → List StepOut
   | [] => []
   | k :: ks => let o := connect k cache; o :: runSeq o.cache ks
 
+/-! ## One long-lived listener Config with a `GetConfigForClient` callback (`c24 lsn`)
+
+  `(c *Conn) readClientHello`: `originalConfig := c.config`; if the callback returns a non-nil Config it becomes
+  `c.config` (the Config IN FORCE for the rest of the handshake); `c.ticketKeys = originalConfig.ticketKeys(configForClient)`.
+  `(c *Config) ticketKeys(configForClient)`: the returned Config's explicit keys if it has any (none at all if it
+  disables tickets), otherwise the ORIGINAL Config's keys — explicit, or auto-managed (one key per sequence here: rotation
+  takes 24 h), none if the original Config disables tickets. -/
+
+/-- the ticket-key part of one Config: `SessionTicketsDisabled`, and the explicit keys (`SetSessionTicketKeys` or the
+    legacy `SessionTicketKey` field); `keys = []` = nothing set (that Config's keys are auto-managed) -/
+structure KeyCfg where
+  disabled : Bool
+  keys : List Nat
+  deriving Repr, DecidableEq
+
+/-- stands for the listener Config's auto-managed key in key lists -/
+def autoKey : Nat := 999
+
+/-- second half of `Config.ticketKeys`: the receiver's own keys -/
+def ownKeys (c : KeyCfg) : List Nat :=
+  if c.disabled then [] else if !c.keys.isEmpty then c.keys else [autoKey]
+
+/-- `originalConfig.ticketKeys(configForClient)` -/
+def ticketKeys (orig : KeyCfg) (forClient : Option KeyCfg) : List Nat :=
+  match forClient with
+  | some f => if f.disabled then [] else if !f.keys.isEmpty then f.keys else ownKeys orig
+  | none => ownKeys orig
+
+/-- what the server's `GetConfigForClient` does for one connection -/
+inductive Hook where
+  | unset      -- Config.GetConfigForClient == nil
+  | retNil     -- returns (nil, nil)
+  | clone      -- returns originalConfig.Clone(), possibly after setting keys / disabling tickets on the clone
+  | fresh      -- returns another Config (new or long-lived) with the given key setting
+  deriving Repr, DecidableEq
+
+/-- the key part of the Config the callback returns (`none`: no Config returned). `Clone` copies
+    SessionTicketsDisabled and the explicit keys; `SetSessionTicketKeys` on the clone replaces the keys -/
+def forClientCfg (l : KeyCfg) (h : Hook) (pk : Option KeyCfg) : Option KeyCfg :=
+  match h with
+  | .unset => none
+  | .retNil => none
+  | .clone =>
+    match pk with
+    | none => some l
+    | some m => some { disabled := l.disabled || m.disabled, keys := if m.keys.isEmpty then l.keys else m.keys }
+  | .fresh =>
+    match pk with
+    | none => some { disabled := false, keys := [] }
+    | some m => some m
+
+/-- `c.config.SessionTicketsDisabled` of the Config in force -/
+def inForceDisabled (l : KeyCfg) (fc : Option KeyCfg) : Bool :=
+  match fc with
+  | some f => f.disabled
+  | none => l.disabled
+
+/-- one connection to the listener: the configurations in force, the flag in force and `c.ticketKeys` -/
+structure LConn where
+  c : Client
+  s : Server
+  useCache : Bool
+  disabled : Bool
+  keys : List Nat
+
+/-- `connect` for a listener connection. With tickets enabled and at least one key, or with tickets disabled, this is
+    `connect`. Tickets enabled but NO key (`c.ticketKeys` empty: the listener's Config disables tickets, the
+    per-client Config does not and brings no keys): `decryptTicket` finds nothing, so nothing resumes, and where the
+    full handshake would issue a ticket `encryptTicket` fails ("session ticket keys unavailable") and with it the
+    handshake (TLS ≤ 1.2: in sendSessionTicket after the client's Finished; TLS 1.3: in the server's first flight). -/
+def lconnect (k : LConn) (cache : Option Sess) : StepOut :=
+  if k.disabled then connect { c := k.c, s := k.s, useCache := k.useCache, tkeys := none } cache
+  else match k.keys with
+  | _ :: _ => connect { c := k.c, s := k.s, useCache := k.useCache, tkeys := some k.keys } cache
+  | [] =>
+    let o := connect { c := k.c, s := k.s, useCache := k.useCache, tkeys := none } cache
+    match o.res with
+    | .done _ =>
+      if k.useCache then
+        let cv := configVersions supportedVersions k.c.minV k.c.maxV
+        failedWith (loadSession cv (clientOffer cv k.c.suites k.c.force) k.useCache cache) cache
+      else o
+    | _ => o
+
+/-- one step of an `lsn` line -/
+structure LStep where
+  c : Client
+  s : Server                 -- this step's server fields: in force only when the callback returns a `fresh` Config
+  useCache : Bool
+  hook : Hook
+  pk : Option KeyCfg
+
+/-- the connection the step amounts to, for a listener Config with server fields `ls` and key setting `lk` -/
+def lstepConn (ls : Server) (lk : KeyCfg) (st : LStep) : LConn :=
+  let fc := forClientCfg lk st.hook st.pk
+  { c := st.c,
+    s := (match st.hook with | .fresh => st.s | _ => ls),
+    useCache := st.useCache,
+    disabled := inForceDisabled lk fc,
+    keys := ticketKeys lk fc }
+
+/-- a sequence of connections to one listener through one client session cache -/
+def runLsn (ls : Server) (lk : KeyCfg) (cache : Option Sess) : List LStep → List StepOut
+  | [] => []
+  | st :: sts => let o := lconnect (lstepConn ls lk st) cache; o :: runLsn ls lk o.cache sts
+
 end ZV.C24
